@@ -248,6 +248,9 @@ pub fn compare_state(rig: &mut Rig, r: &mut RefCpu, addrs: &mut dyn Iterator<Ite
     if rig.sim.frame_stack.len() != r.depth {
         return Err(format!("{what}: frame depth = {}, reference {}", rig.sim.frame_stack.len(), r.depth));
     }
+    if rig.sim.frame_stack.is_empty() != (r.depth == 0) {
+        return Err(format!("{what}: frame_stack.is_empty() = {} at depth {}", rig.sim.frame_stack.is_empty(), r.depth));
+    }
     let mcr = rig.sim.mcr().load(std::sync::atomic::Ordering::Relaxed);
     if mcr != r.mcr {
         return Err(format!("{what}: MCR = {mcr}, reference {}", r.mcr));
